@@ -202,6 +202,13 @@ func init() {
 // ---------- (a) explicit-state search over registrations and ready-marks
 
 func searchSequential(run *mc.Run, cov *mc.Coverage) {
+	searchSequentialOver(run, cov, names, false)
+	// once more with a component that carries the reserved name of the summary entry: its own line of the body
+	// cannot be told from the summary, so only the status code, IsReady and the summary are judged
+	searchSequentialOver(run, cov, []string{"a", health.OverallReady}, true)
+}
+
+func searchSequentialOver(run *mc.Run, cov *mc.Coverage, names []string, reserved bool) {
 	type node struct {
 		h []hop
 	}
@@ -251,11 +258,22 @@ func searchSequential(run *mc.Run, cov *mc.Coverage) {
 					iterChoice = nil
 					want := m.allReady(reg)
 					msg := r.consistent()
+					if reserved {
+						msg = ""
+						if r.Body == nil {
+							msg = "body is not a JSON object of strings: " + r.Raw
+						} else if (r.Body[health.OverallReady] == health.ComponentReady) != want {
+							msg = fmt.Sprintf("summary entry %q but every-registered-component-ready=%v", r.Body[health.OverallReady], want)
+						}
+					}
 					if msg == "" && (r.Code == 200) != want {
 						msg = fmt.Sprintf("status %d but every-registered-component-ready=%v (model %s)", r.Code, want, m.key())
 					}
 					if msg == "" {
 						for c := range reg {
+							if reserved && c == health.OverallReady {
+								continue
+							}
 							wantS := health.ComponentNotReady
 							if m[c] {
 								wantS = health.ComponentReady
@@ -287,7 +305,11 @@ func searchSequential(run *mc.Run, cov *mc.Coverage) {
 	cov.States += len(seen)
 	cov.Transitions += trans
 	cov.Traces += trans
-	cov.Extra["sequential"] = map[string]any{"states": len(seen), "transitions": trans, "closure_reached": true, "components": names}
+	exKey := "sequential"
+	if reserved {
+		exKey = "sequential_with_a_component_named_overall"
+	}
+	cov.Extra[exKey] = map[string]any{"states": len(seen), "transitions": trans, "closure_reached": true, "components": names}
 	fmt.Printf("C18(a) sequential: states=%d transitions=%d\n", len(seen), trans)
 }
 
@@ -648,7 +670,7 @@ func runC18(t *testing.T, run *mc.Run) int {
 		return 0
 	}
 	cov := mc.Coverage{Level: "model_checking", Exhaustive: true, Extra: map[string]any{}}
-	cov.Rule = "(a) breadth-first search to closure over add/ready for 3 component names on the real Health, the real readyz handler queried after every transition under every map iteration order (by an ordinary request and by requests whose context is already cancelled / past its deadline: same answer); (b) every lock-granularity interleaving of 3 real goroutines (registrations, ready-marks, status requests) under the cooperative scheduler, each outcome compared with the outcomes of all sequential merges; (c) every sequence of {ready marks, re-registration, cancel, clock tick} up to the length bound delivered to the real WaitForReady goroutine in a synctest bubble, once with a caller that polls the channel after every event and once with a caller that looks only after the last event. distinct_nontrivial = complete concurrent executions with >=1 preemption"
+	cov.Rule = "(a) breadth-first search to closure over add/ready for 3 component names (and again for 2 names one of which is the reserved name 'overall', judged by status code, IsReady and the summary entry only) on the real Health, the real readyz handler queried after every transition under every map iteration order (by an ordinary request and by requests whose context is already cancelled / past its deadline: same answer); (b) every lock-granularity interleaving of 3 real goroutines (registrations, ready-marks, status requests) under the cooperative scheduler, each outcome compared with the outcomes of all sequential merges; (c) every sequence of {ready marks, re-registration, cancel, clock tick} up to the length bound delivered to the real WaitForReady goroutine in a synctest bubble, once with a caller that polls the channel after every event and once with a caller that looks only after the last event. distinct_nontrivial = complete concurrent executions with >=1 preemption"
 	searchSequential(run, &cov)
 	searchConcurrent(run, &cov)
 	ml := 5
